@@ -78,6 +78,9 @@ impl<T: Send + 'static> Clone for RawPooledRef<T> {
 // storage strategy, and the reference does not touch the event afterwards.
 unsafe impl<T: Send + 'static> EventRef<T> for RawPooledRef<T> {
     unsafe fn release_event(&self) {
+        #[cfg(folo_verif)]
+        crate::__verif::notify_release(std::ptr::from_ref::<UnsafeCell<Event<T>>>(self));
+
         #[cfg(debug_assertions)]
         self.core()
             .state
